@@ -10,7 +10,7 @@ ID = "C09"
 
 META = {
     "rule": "cases = (type, block of bit patterns): every shipped Qint/Qfixed/Qchar type with ALL 2^w patterns (complete), nested "
-            "Tuple/Qlist/Qmatrix types built from <=4-bit element types with all patterns, and const_to_qtype on every integer / char. "
+            "Tuple/Qlist/Qmatrix types built from <=4-bit element types with all patterns, and const_to_qtype on every integer / char, and on int and float literals of equal value interleaved in one process. "
             "Oracles: from_bool/to_bool and from_bin/to_bin round trips, const(value) == to_bool(value), decoded value == independent "
             "reference decoder, to_amplitudes one-hot at sum(bit_k 2^k), interpret_as_qtype inverts the concatenated element encodings. "
             "Non-trivial = pattern with at least two different bits; distinct = distinct (type, pattern).",
@@ -96,6 +96,7 @@ def shards(tier):
     for lo in range(0, top, 4096):
         out.append({"k": "constint", "lo": lo, "hi": min(top, lo + 4096)})
     out.append({"k": "constchar"})
+    out.append({"k": "constmix"})
     return out
 
 
@@ -107,6 +108,8 @@ def cases(shard):
         yield {"k": "nested", "type": shard["type"], "key": "nested " + shard["type"]}
     elif shard["k"] == "constint":
         yield {"k": "constint", "lo": shard["lo"], "hi": shard["hi"], "key": "const_to_qtype ints %d..%d" % (shard["lo"], shard["hi"] - 1)}
+    elif shard["k"] == "constmix":
+        yield {"k": "constmix", "key": "const_to_qtype ints and floats of equal value, interleaved"}
     else:
         yield {"k": "constchar", "key": "const_to_qtype chars"}
 
@@ -224,6 +227,31 @@ def run_case(case):
                 bad.append({"op": "const_to_qtype raised", "value": v, "exc": H.exc_name(e)})
             if len(bad) > 20:
                 break
+    elif k == "constmix":
+        # the constant of an int literal and of the float literal of equal value (3 and 3.0 are equal and hash alike in Python)
+        # in both orders of first use, in one process: ints are Qint constants, floats Qfixed constants of that value
+        from qlasskit import const_to_qtype
+        from qlasskit.types.qfixed import QfixedImp
+        from qlasskit.types.qint import QintImp
+        seq = []
+        for v in range(16):
+            seq += [v, float(v)] if v % 2 == 0 else [float(v), v]
+        seq += [x + 0.5 for x in range(8)] + [0.25, 1.75, 3.125]
+        for _round in (0, 1):
+            for v in seq:
+                states += 1
+                nontriv += 1
+                try:
+                    t, b = const_to_qtype(v)
+                    rows += 1
+                    if isinstance(v, float):
+                        okv = issubclass(t, QfixedImp) and len(b) == t.BIT_SIZE and float(t.from_bool([bool(x) for x in b])) == v
+                    else:
+                        okv = issubclass(t, QintImp) and len(b) == t.BIT_SIZE and sum((1 << i) for i, x in enumerate(b) if x) == v
+                    if not okv:
+                        bad.append({"op": "const_to_qtype", "value": repr(v), "type": t.__name__, "bits": [bool(x) for x in b]})
+                except Exception as e:
+                    bad.append({"op": "const_to_qtype raised", "value": repr(v), "exc": H.exc_name(e)})
     else:
         from qlasskit import Qchar, const_to_qtype
         for v in range(256):
